@@ -4,6 +4,26 @@ import json, os
 ROOT = os.path.dirname(os.path.dirname(os.path.abspath(__file__)))
 
 CHECKS = {
+ "C01": dict(
+   technique="property-based round-trip testing over a corpus of ~230 Rust types with stateful call histories and a fresh-thread differential (proptest)",
+   text="Round-trip search over a cross product of container, key, value and element types (all specialised decoding paths and their nestings, derived/generic/recursive/reference types) with generated values aimed at fast-path boundaries, through three API pairs; each case is preceded by a generated history of 0-12 type derivations, encodes, matching and mismatching decodes, multi-argument messages and abandoned builders on the same thread, and its bytes and result are compared with a fresh thread doing only the round-trip. Exploration: the type corpus is large but finite and values are sampled.",
+   note="The abstract value of each Rust value is computed by hand-written code per type (not by candid); unordered containers are compared as multisets.",
+   ref="DESIGN.md §5 C01"),
+ "C03": dict(
+   technique="property-based testing of the encoder against an independent strict decoder of the binary grammar (proptest)",
+   text="Every generated encoder call (corpus values through three native APIs, multi-argument builders, untyped values with generated recursive environments) is parsed by an independent decoder in strict mode (composite-only table, ascending ids/names, minimal LEB128, little-endian widths, variant index matching the value's tag) and must yield bisimilar argument types and the abstract values computed from the inputs; re-encoding gives identical bytes. Exploration over generated types and values.",
+   note="Trusts the harness's decoder (refmodel::rwire) as the reading of the binary grammar; table layout is not constrained beyond the grammar.",
+   ref="DESIGN.md §5 C03"),
+ "C08": dict(
+   technique="property-based differential testing, native vs untyped decoding, with upgrade-neighbour and layout-twin wire types (proptest)",
+   text="For each corpus Rust type T and generated message (T's own type, upgrade neighbours, layout twins such as text/blob/vec int8/principal or nat/natN), Decode! at T and untyped decoding at T's exported Candid type must agree on acceptance and on the abstract value; 128-bit host limits and BoundedVec limits are predicted from the untyped value. Three regions where they are known to disagree are excluded by construction and counted (known findings). Exploration.",
+   note="T's Candid type is exported by TypeContainer; BoundedVec data sizes follow the documented DataSize; error messages are used only to classify known findings, never for verdicts.",
+   ref="DESIGN.md §5 C08"),
+ "C10": dict(
+   technique="property-based round-trip and near-miss rejection testing of the untyped value API with an independent decoder (proptest)",
+   text="Generated (environment, type, inhabitant) triples in canonical and user form: annotate_type keeps meaning and is idempotent, typed encoding is deterministic and read back by an independent decoder, decoding at t and untyped returns v; single-fault near-miss values must be rejected by annotation and typed encoding. Exploration over generated recursive environments.",
+   note="One known finding (reference types over uninhabited records) is tolerated by exact signature.",
+   ref="DESIGN.md §5 C10"),
  "C02": dict(
    technique="property-based differential testing against an independent binary-format parser and coercion function (proptest, byte mutation)",
    text="Differential search: the untyped decoder (from_bytes_with_types, get_value_with_type+done, from_bytes) is compared on generated (message, expected types) pairs with an independent implementation of the binary grammar and of the spec's coercion relation (subtyping for references as a greatest fixed point). Messages come from the harness's own encoder over random recursive wire types with layout variations and byte mutations; expected types are upgrade-step neighbours in both directions, opt-wrappings and fresh types. Exploration: deep combinations are sampled; two genuine deviations are listed as known findings.",
